@@ -33,7 +33,6 @@ type Outcome struct {
 	WallMs    int64
 }
 
-
 func runChild(c *Case) *Outcome {
 	out := &Outcome{}
 	t0 := time.Now()
